@@ -19,6 +19,10 @@ CHECKS = {
         "deterministic simulation: seeded search over schedules/cancellation instants/server delays + enumerated ctx-observation and single-preemption floors"),
 "C11": ("client", "exploration", "Seeded deterministic simulation of the real client (dial, version negotiation, calls, retry/reconnect, Close) with eof/reset/closed/epipe/short-write/stall faults injected at chosen client-side I/O operation indexes, failing dials and a server that closes or resets around its reply, under concurrent callers and preemptions; plus a complete single-fault floor (every I/O op index 1..12 x 6 kinds x 5 follow-up action lists x negotiation on/off, and server close/reset after the k-th reply seen as EOF or data+EOF) and a single-preemption sweep. Oracles: every call returns; nil-error results carry the caller's own tokens; no panic; recovery in a fault-free suffix (only the first call may fail); at most 4 transmissions per request; calls started after Close returned fail; no client goroutine alive after Close.", "DESIGN.md §3 C11",
         "deterministic simulation: seeded fault-sequence/schedule search + enumerated single-fault floor over client I/O operation indexes"),
+"C12": ("client", "exploration", "Seeded deterministic simulation in which a scripted byzantine server (fault kind peer-substitute) answers one representative call of each of the 27 fluent-API operations (plus raw Request, batches and the discovery exchange at connect time) with a response falsified by 0-3 substitutions: header count, item count, item operation (other/unknown/absent), status, reason (named/unnamed), message, payload (other operation's/opaque/absent), swapped ids; plus a complete floor of 22 single substitutions x every operation. Oracle: the real client returns either a non-nil payload of the operation's own response type or an error; never panics; a failed item surfaces as an error carrying status, reason and message; a conformant response is accepted. Degenerate schedule dimension (one caller), stated as such.", "DESIGN.md §3 C12",
+        "deterministic simulation with a byzantine peer: seeded response substitutions + enumerated single-substitution floor"),
+"C13": ("client", "exploration", "The complete configuration grid (31 client sets x 32 server sets x 6 scripted-server behaviours, the real kmipserver with each set, and enforced versions: 7564 dials) is swept inside the simulator in every run with the real client negotiation, followed by one request on the original and on a cloned client; the seeded part adds configuration order, chunked/byte-wise reads, stalls and preemptions. Oracle: reference model of the statement (highest common version or failure; 1.0 fallback only if configured; adopted version in the client set; no discovery when enforced; every later request header carries the adopted version).", "DESIGN.md §3 C13",
+        "deterministic simulation: exhaustive configuration grid swept inside the simulator + seeded transport/schedule variation"),
 }
 ENG = {"stream":"sim/harness/stream.go","server":"sim/harness/server*.go","client":"sim/harness/client*.go","codec":"sim/harness/codec.go"}
 def main():
